@@ -29,6 +29,15 @@ namespace Aio.C20
 @[simp] theorem exitsOf_cons_sig (s : Sig) (i : Nat) (l : List Ev) :
     exitsOf (.sig s i :: l) = exitsOf l := by simp [exitsOf]
 
+@[simp] theorem enteredOf_cons_exitEnd (a i : Nat) (l : List Ev) :
+    enteredOf (.exitEnd a i :: l) = enteredOf l := by simp [enteredOf]
+@[simp] theorem enteredOf_cons_sigEnd (s : Sig) (i : Nat) (l : List Ev) :
+    enteredOf (.sigEnd s i :: l) = enteredOf l := by simp [enteredOf]
+@[simp] theorem exitsOf_cons_exitEnd (a i : Nat) (l : List Ev) :
+    exitsOf (.exitEnd a i :: l) = exitsOf l := by simp [exitsOf]
+@[simp] theorem exitsOf_cons_sigEnd (s : Sig) (i : Nat) (l : List Ev) :
+    exitsOf (.sigEnd s i :: l) = exitsOf l := by simp [exitsOf]
+
 @[simp] theorem groupsOf_nil : groupsOf [] = [] := rfl
 @[simp] theorem groupsOf_cons_grp (a : Nat) (l : List Step) :
     groupsOf (.grp a :: l) = a :: groupsOf l := by simp [groupsOf]
@@ -555,5 +564,118 @@ theorem filter_flatMap_pairs (gs : List Nat) (f : Nat → List Nat) (a : Nat) (h
         simp [hga]
       have : (a = g) = False := by simp [Ne.symm hga]
       simp [h1, this]
+
+end Aio.C20
+
+namespace Aio.C20
+
+/-! ## teardowns never overlap -/
+
+def isTeardownEv : Ev → Bool
+  | .exit _ _ => true
+  | .exitEnd _ _ => true
+  | _ => false
+
+/-- no teardown event at all -/
+def quiet (l : List Ev) : Bool := l.all (fun e => !isTeardownEv e)
+
+theorem quiet_append (l₁ l₂ : List Ev) : quiet (l₁ ++ l₂) = (quiet l₁ && quiet l₂) := by
+  simp [quiet, List.all_append]
+
+theorem nestedFrom_append (st : Option (Nat × Nat)) (l₁ l₂ : List Ev)
+    (h : nestedFrom st l₁ = true) : nestedFrom st (l₁ ++ l₂) = nestedFrom none l₂ := by
+  induction l₁ generalizing st with
+  | nil => cases st <;> simp_all [nestedFrom]
+  | cons e l ih =>
+    cases st with
+    | none =>
+      cases e <;> simp_all [nestedFrom]
+    | some p =>
+      cases e <;> simp_all [nestedFrom]
+
+theorem nested_of_quiet (l : List Ev) (h : quiet l = true) : nestedFrom none l = true := by
+  induction l with
+  | nil => rfl
+  | cons e l ih =>
+    simp only [quiet, List.all_cons, Bool.and_eq_true] at h
+    have hl : quiet l = true := h.2
+    cases e <;> simp_all [nestedFrom, isTeardownEv]
+
+theorem nested_append (l₁ l₂ : List Ev) (h₁ : nestedFrom none l₁ = true) (h₂ : nestedFrom none l₂ = true) :
+    nestedFrom none (l₁ ++ l₂) = true := by
+  rw [nestedFrom_append none l₁ l₂ h₁]; exact h₂
+
+theorem enterAll_quiet (a : Nat) (cs : List Ctx) (i : Nat) : quiet (enterAll a i cs).ev = true := by
+  induction cs generalizing i with
+  | nil => rfl
+  | cons c cs ih =>
+    simp only [enterAll]
+    split
+    · have := ih (i + 1)
+      simp_all [quiet, isTeardownEv]
+    · simp [quiet, isTeardownEv]
+
+theorem exitAll_nested (a : Nat) (cs : List Ctx) (l : List Nat) : nestedFrom none (exitAll a cs l).1 = true := by
+  induction l with
+  | nil => rfl
+  | cons i l ih => simp [exitAll, nestedFrom, ih]
+
+theorem send_quiet (tbl : List AppDef) (s : Sig) (hs : s ≠ .cleanup) (l : List Step) (X : Exits) :
+    quiet (send tbl s l X).ev = true := by
+  induction l generalizing X with
+  | nil => rfl
+  | cons st l ih =>
+    have hstep : quiet (runStep tbl s X st).ev = true := by
+      cases st with
+      | h id f => simp [runStep, quiet, isTeardownEv]
+      | grp a =>
+        cases s with
+        | startup => exact enterAll_quiet a _ 0
+        | shutdown => rfl
+        | cleanup => exact absurd rfl hs
+    simp only [send]
+    split
+    · exact hstep
+    · simp [quiet_append, hstep, ih]
+
+theorem send_cleanup_nested (tbl : List AppDef) (l : List Step) (X : Exits) :
+    nestedFrom none (send tbl .cleanup l X).ev = true := by
+  induction l generalizing X with
+  | nil => rfl
+  | cons st l ih =>
+    have hstep : nestedFrom none (runStep tbl .cleanup X st).ev = true := by
+      cases st with
+      | h id f => simp [runStep, nestedFrom]
+      | grp a => exact exitAll_nested a _ _
+    simp only [send]
+    split
+    · exact hstep
+    · exact nested_append _ _ hstep (ih _)
+
+theorem step_nested (tbl : List AppDef) (r : Runner) (op : ROp) :
+    nestedFrom none (Runner.step tbl r op).ev = true := by
+  cases op with
+  | setup =>
+    have := nested_of_quiet _ (send_quiet tbl .startup (by simp) (rootChain tbl .startup) r.X)
+    simp only [Runner.step]
+    split <;> exact this
+  | cleanup =>
+    have hsd : nestedFrom none (if r.server then send tbl .shutdown (rootChain tbl .shutdown) r.X
+        else (⟨[], r.X, none⟩ : Out)).ev = true := by
+      split
+      · exact nested_of_quiet _ (send_quiet tbl .shutdown (by simp) _ _)
+      · rfl
+    have hcl : nestedFrom none (if r.frozen then
+          ((send tbl .cleanup (rootChain tbl .cleanup) r.X).ev, (send tbl .cleanup (rootChain tbl .cleanup) r.X).err)
+        else groupCleanup 0 (ctxsOf tbl 0) (r.X 0)).1 = true := by
+      split
+      · exact send_cleanup_nested _ _ _
+      · exact exitAll_nested _ _ _
+    simp only [Runner.step]
+    split
+    · exact hsd
+    · split
+      · exact nested_append _ _ hsd hcl
+      · exact nested_append _ _ hsd hcl
 
 end Aio.C20
